@@ -227,8 +227,9 @@ def compare(case: Dict[str, Any], ap: Dict[str, Any], af: Dict[str, Any]) -> Dic
     viol: List[Tuple[dict, str]] = []
     extra = envelope_shape(case["wire"]) if target == "parse_message" else {}
     label = str(case.get("label") or "")
+    whole = dict(extra)             # for failures of the whole object: name class of the unknown member it carries
     if label.startswith("unknown:"):
-        extra = {**extra, "unknown_member": label[len("unknown:"):].split("=", 1)[0]}
+        whole["unknown_member"] = label[len("unknown:"):].split("=", 1)[0]
 
     broken = broken_invariants(case)
     if broken:
@@ -247,12 +248,12 @@ def compare(case: Dict[str, Any], ap: Dict[str, Any], af: Dict[str, Any]) -> Dic
         return {"status": "not-spec-valid:" + ("both-reject" if not af["ok"] else "fallback-accepts"), "violations": []}
     if not af["ok"]:
         viol.append(({"class": "rejected-by-fallback", "model": model, "field": af.get("field"),
-                      "exception": af.get("exc"), **extra},
+                      "exception": af.get("exc"), **whole},
                      f"{head}: accepted by Pydantic, fallback raised {af.get('exc')}: {af.get('detail')}"))
         return {"status": "rejected-by-fallback", "violations": viol}
     for side, a in (("pydantic", ap), ("fallback", af)):
         if "dump_exc" in a:
-            viol.append(({"class": "dump-raised", "model": model, "backend": side, "exception": a["dump_exc"].get("exc"), **extra},
+            viol.append(({"class": "dump-raised", "model": model, "backend": side, "exception": a["dump_exc"].get("exc"), **whole},
                          f"{head}: model_dump(by_alias=True, exclude_none=True) raised under {side}: {a['dump_exc']}"))
     if viol:
         return {"status": "dump-raised", "violations": viol}
@@ -295,11 +296,12 @@ def compare(case: Dict[str, Any], ap: Dict[str, Any], af: Dict[str, Any]) -> Dic
         for side, r in (("pydantic", a), ("fallback", b)):
             if "exc" in r:
                 viol.append(({"class": "json-dump-raised", "model": model, "backend": side, "variant": variant,
-                              "exception": r["exc"].get("exc"), **extra},
+                              "exception": r["exc"].get("exc"), **whole},
                              f"{head}: model_dump_json({variant}) raised under {side}: {r['exc']}"))
             elif r.get("vs_dump") or "vs_dump_exc" in r:
                 viol.append(({"class": "json-differs-from-dump", "model": model, "backend": side, "variant": variant,
-                              "field": norm_path(str(r.get("vs_dump") or "<model_dump raised>")), **extra},
+                              "field": norm_path(str(r.get("vs_dump") or "<model_dump raised>")), **extra,
+                              **_unknown_of(norm_path(str(r.get("vs_dump") or "")))},
                              f"{head}: under {side} json.loads(model_dump_json({variant})) differs from model_dump({variant}) "
                              f"at '{r.get('vs_dump')}': JSON form {json.dumps(dec(r['value']), ensure_ascii=True)[:200]}"))
         if "value" in a and "value" in b:
@@ -311,10 +313,18 @@ def compare(case: Dict[str, Any], ap: Dict[str, Any], af: Dict[str, Any]) -> Dic
                     continue                              # the same difference already shows in model_dump
                 seen_dump.add((norm_path(p), how))
                 viol.append(({"class": "json-dump-differs", "model": model, "variant": variant, "field": norm_path(p),
-                              "how": how, **extra},
+                              "how": how, **extra, **_unknown_of(norm_path(p))},
                              f"{head}: json.loads(model_dump_json({variant})) differs at '{p}' ({how}): Pydantic "
                              f"{json.dumps(_at(va, p), ensure_ascii=True)[:120]} fallback {json.dumps(_at(vb, p), ensure_ascii=True)[:120]}"))
     return {"status": "agree" if not viol else "disagree", "violations": viol}
+
+
+def _unknown_of(np_: str) -> Dict[str, str]:
+    for part in reversed(np_.split(".")):
+        part = part.replace("[]", "")
+        if part in UNKNOWN_NAME_SET:
+            return {"unknown_member": wiregen.name_kind(part)}
+    return {}
 
 
 def _at(v: Any, path: str) -> Any:
